@@ -2,7 +2,7 @@
 C14 (source tie) — the hand-written models of the "is re-issuance due" tests
 (`KeyObjectSet.requiresReissuance`, `ClassObjects.requiresReissuance`, Ca/Objects.lean) equal the
 definitions that the translator `pure_fns` regenerates from `/repo/src/server/ca/publishing.rs` on
-every run (`Generated/PureFns.lean`: `KM.Gen.KeyObjectSet.requires_reissuance`,
+every run (`Generated/PureFnsC14.lean`: `KM.Gen.KeyObjectSet.requires_reissuance`,
 `KM.Gen.ResourceClassObjects.requires_re_issuance`).
 
 `due_is_reissued`, `nothing_due_nothing_changes` (Props/C14.lean) are about the model's tests.  With
@@ -20,7 +20,7 @@ Differences that do not matter, bridged here:
   `ClassObjects`, the sets are passed separately.  Each arm reads only sets its variant has; for the
   absent ones the statement quantifies over an arbitrary default `d`.
 -/
-import KrillModel.Generated.PureFns
+import KrillModel.Generated.PureFnsC14
 import KrillModel.Ca.Objects
 namespace KM.Props.C14Src
 open KM.Ca.Pub
